@@ -179,6 +179,37 @@ def requests(seed=1, size="quick"):
                         continue
                     out.append(("seq %s %d %d %s %s %s %s" % (kind, l, cm, fr(rd), fr(wd), fr(uf), fr(ub)),
                                 lambda kind=kind, l=l, cm=cm, rd=rd, wd=wd, uf=uf, ub=ub: seqof(kind, l, cm, rd, wd, uf, ub)))
+    def hseqof(kind, l, K, cmem, c0, c1, w0, w1, r0, r1, uf, ub):
+        try:
+            with contextlib.redirect_stdout(io.StringIO()):
+                if kind == "top":
+                    sq = hrm.hrevolve(l, (c0, c1), (w0, w1), (r0, r1), uf, ub)
+                else:
+                    from checkpoint_schedules.hrevolve_sequences.utils import revolver_parameters
+                    prm = revolver_parameters((w0, w1), (r0, r1), uf, ub)
+                    f = hrm.hrevolve_recurse if kind == "rec" else hrm.hrevolve_aux
+                    sq = f(l, K, cmem, (c0, c1), (w0, w1), (r0, r1), hoptp=None, hopt=None, **prm)
+                ops2 = []
+                for op in sq:
+                    ix = op.index
+                    ops2.append("%s:%d:%d" % (op.type, ix[0], ix[1]) if isinstance(ix, (list, tuple)) else "%s:%d" % (op.type, ix))
+            return ",".join(ops2)
+        except Exception as e:   # noqa: BLE001
+            return "raise:" + type(e).__name__
+    for l in (0, 1, 2, 3, 4, 6, 9, 14, 22):
+        for c0, c1 in ((1, 0), (1, 1), (2, 1), (1, 3), (3, 2), (0, 1), (0, 0), (2, 0), (4, 4)):
+            for (w1, r1, uf, ub) in ((2, 2, 1, 1), (0.5, 0, 3, 1), (5, 1, 0.5, 2), (0, 0, 1, 1), (0.25, 0.25, 1, 1)):
+                out.append(("hseq top %d 1 %d %d %d 0 %s 0 %s %s %s" % (l, c1, c0, c1, fr(w1), fr(r1), fr(uf), fr(ub)),
+                            lambda l=l, c0=c0, c1=c1, w1=w1, r1=r1, uf=uf, ub=ub:
+                            hseqof("top", l, 1, c1, c0, c1, 0, w1, 0, r1, uf, ub)))
+    for kind in ("rec", "aux"):
+        for l in (0, 1, 2, 3, 5, 8):
+            for K, cmem in ((0, 0), (0, 1), (0, 2), (1, 0), (1, 1), (1, 2)):
+                for c0, c1 in ((1, 2), (2, 2), (3, 2), (0, 2)):
+                    for (w0, w1, r0, r1, uf, ub) in ((0, 2, 0, 2, 1, 1), (1, 0.5, 1, 3, 1, 1), (0, 0, 0, 0, 2, 1)):
+                        out.append(("hseq %s %d %d %d %d %d %s %s %s %s %s %s" % (kind, l, K, cmem, c0, c1, fr(w0), fr(w1), fr(r0), fr(r1), fr(uf), fr(ub)),
+                                    lambda kind=kind, l=l, K=K, cmem=cmem, c0=c0, c1=c1, w0=w0, w1=w1, r0=r0, r1=r1, uf=uf, ub=ub:
+                                    hseqof(kind, l, K, cmem, c0, c1, w0, w1, r0, r1, uf, ub)))
     for x in range(0, 8):
         for y in range(-1, 8):
             out.append(("beta %d %d" % (x, y), lambda x=x, y=y: _val(lambda: bf.beta(x, y))))
